@@ -68,3 +68,8 @@ Proof.
   rewrite Hl, Nat.eqb_refl. cbn [andb].
   eapply search_complete; [exact Hrep|exact Hp|]. rewrite index_from_length. lia.
 Qed.
+
+(* ev.mu is never held exclusively and shared at once, in any interleaving *)
+Lemma mu_exclusive g0 st0 mods0 js sched :
+  let c := run sched (init g0 st0 mods0 js) in c_w c <> None -> c_r c = [].
+Proof. destruct (reachable_Inv1 g0 st0 mods0 js sched) as (H & _). exact H. Qed.
